@@ -12,6 +12,7 @@ pub fn instances(tier: &str) -> Vec<String> {
         v.push(format!("solve:n={}", n));
         v.push(format!("solve_dd:n={}", n));
     }
+    for n in 1..=3 { v.push(format!("csolve:n={}", n)); }
     v
 }
 
@@ -41,9 +42,34 @@ fn expect_tri(tag: &str, t: &Tridiagonal<Sym>, n: usize, f: impl Fn(usize, usize
     } } }
 }
 
+/// Complex<f64> entries (derived crate): solve is exact or refuses; conj; determinant; product
+fn complex_solve(n: usize) {
+    use ohsl_sym::{Cmplx, Tridiagonal as T2, Vector as V2};
+    let cv = |p: &str, k: usize| -> Vec<Cmplx> { (0..k).map(|i| Cmplx::new(Sym::var(&format!("{}r_{}", p, i)), Sym::var(&format!("{}i_{}", p, i)))).collect() };
+    let (sub, main, sup, r) = (cv("l", n - 1), cv("d", n), cv("u", n - 1), cv("r", n));
+    let t = T2::<Cmplx>::with_vecs(sub.clone(), main.clone(), sup.clone());
+    let zero = Cmplx::new(z(), z());
+    let entry = |i: usize, j: usize| -> Cmplx { if i == j { main[i] } else if i == j + 1 { sub[j] } else if i + 1 == j { sup[i] } else { zero } };
+    must("conj", || t.conj(), |c| { for i in 0..n { prove("conj main (re)", eq(c[(i, i)].real, main[i].real)); prove("conj main (im)", eq(c[(i, i)].imag, -main[i].imag)); } });
+    match catch(|| t.solve(&V2::create(r.clone()))) {
+        Ok(x) => {
+            prove("complex solve: result has length n", if x.size() == n { B::True } else { B::False });
+            if x.size() == n { for i in 0..n {
+                let mut acc = zero;
+                for j in 0..n { if i == j || i == j + 1 || i + 1 == j { acc = acc + entry(i, j) * x[j]; } }
+                prove(&format!("complex solve: residual row {} (real part)", i), eq(acc.real, r[i].real));
+                prove(&format!("complex solve: residual row {} (imaginary part)", i), eq(acc.imag, r[i].imag));
+            } }
+        }
+        Err(Stop::Panic { msg, .. }) => { let lower = msg.to_lowercase(); prove(&format!("complex solve: the only panic is the zero-pivot refusal (got '{}')", msg), if lower.contains("zero") || lower.contains("pivot") { B::True } else { B::False }); }
+        Err(s) => must_not_stop("complex solve: must return or refuse, never divide by zero", &s),
+    }
+}
+
 pub fn body(inst: &str) {
     let (kind, p) = parse_inst(inst);
     let n = geti(&p, "n");
+    if kind == "csolve" { return complex_solve(n); }
     match kind.as_str() {
         "algebra" => {
             let (a, da) = build("a", n);
